@@ -271,12 +271,20 @@ func (c *Classifier) Normalize(in []byte) []byte {
 	case 0:
 		return nil
 	case 1:
-		buf.WriteString(dict.getWord(doc.Tokens[0].ID))
+		// Only write tokens that aren't EOL
+		if txt := dict.getWord(doc.Tokens[0].ID); txt != eol {
+			buf.WriteString(txt)
+		}
 		return buf.Bytes()
 	}
 
 	prevLine := 1
-	buf.WriteString(dict.getWord(doc.Tokens[0].ID))
+	// The first token can be an EOL token (the input starts with a blank line or
+	// with a line that was removed). Line breaks are written from the line
+	// numbers below, so it must not be written out itself.
+	if txt := dict.getWord(doc.Tokens[0].ID); txt != eol {
+		buf.WriteString(txt)
+	}
 	for _, t := range doc.Tokens[1:] {
 		// Only write out an EOL token that incremented the line
 		if t.Line == prevLine+1 {
